@@ -46,6 +46,15 @@ func (p *Program) sameObjectPath(a, b ssa.Value, depth int) bool {
 	if depth > 3 {
 		return false
 	}
+	// two loads of one package variable
+	if ua, ok := a.(*ssa.UnOp); ok && ua.Op == token.MUL {
+		if ub, ok := b.(*ssa.UnOp); ok && ub.Op == token.MUL {
+			if ga, ok := ua.X.(*ssa.Global); ok && ua.X == ub.X {
+				_ = ga
+				return true
+			}
+		}
+	}
 	ba, fa, oka := fieldLoad(a)
 	bb, fb, okb := fieldLoad(b)
 	if oka && okb && fa == fb {
